@@ -554,6 +554,132 @@ example : Inv suspendedAtTop ∧ suspendedAtTop.globalScope = true ∧ isSuspend
   refine ⟨reachable_inv ?_, rfl, by decide, by decide⟩
   exact .event (.advance 1 0 (.suspended false true true [])) (.event .setRefs (.event (.start 1) (.init true []) rfl) rfl) rfl
 
+/-! ### a pending `inject` has changed nothing -/
+
+/-- `m` started with the lock free can only be found `evaluating` in the very state it started in -/
+def EvalSame {α : Type} (m : M α) : Prop := ∀ s t, s.lock = 0 → m s = .evaluating t → t = s
+
+/-- `m` returns in the state it started in -/
+def StatePure {α : Type} (m : M α) : Prop := ∀ s a t, m s = .ok a t → t = s
+
+theorem evalSame_of_noEval {α : Type} {m : M α} (h : NoEval m) : EvalSame m :=
+  fun s t _ hr => (h s t hr).elim
+
+theorem evalSame_bind_pure {α β : Type} {m : M α} {f : α → M β} (hp : StatePure m) (hn : NoEval m)
+    (hf : ∀ a, EvalSame (f a)) : EvalSame (m >>= f) := by
+  intro s t hl hr
+  simp only [bind] at hr
+  cases hm : m s with
+  | ok a s1 =>
+    rw [hm] at hr
+    have := hp s a s1 hm
+    subst this
+    exact hf a _ t hl hr
+  | panic p s1 => rw [hm] at hr; cases hr
+  | deadlock s1 => rw [hm] at hr; cases hr
+  | evaluating s1 => exact (hn s s1 hm).elim
+
+theorem evalSame_bind_noEval {α β : Type} {m : M α} {f : α → M β} (hm : EvalSame m) (hf : ∀ a, NoEval (f a)) :
+    EvalSame (m >>= f) := by
+  intro s t hl hr
+  simp only [bind] at hr
+  cases h1 : m s with
+  | ok a s1 => rw [h1] at hr; exact (hf a s1 t hr).elim
+  | panic p s1 => rw [h1] at hr; cases hr
+  | deadlock s1 => rw [h1] at hr; cases hr
+  | evaluating s1 => rw [h1] at hr; injection hr with h2; rw [← h2]; exact hm s s1 hl h1
+
+theorem statePure_idx {α : Type} (l : List α) (i : Nat) (site : String) : StatePure (idx l i site) := by
+  intro s a t h
+  unfold idx at h
+  cases hx : l[i]? with
+  | none => rw [hx] at h; cases h
+  | some b => rw [hx] at h; cases h; rfl
+
+theorem statePure_sliceFrom {α : Type} (l : List α) (i : Nat) (site : String) :
+    StatePure (sliceFrom l i site) := by
+  intro s a t h
+  unfold sliceFrom at h
+  by_cases hc : i ≤ l.length
+  · rw [if_pos hc] at h; cases h; rfl
+  · rw [if_neg hc] at h; cases h
+
+theorem evalSame_injectValue (env : Env) (tid : Nat) (v e : Str) :
+    EvalSame (injectValue repaired env tid v e) := by
+  intro s t hl hr
+  cases hg : s.globalScope
+  · simp [injectValue, bind, getS, pure, hg] at hr
+  · rw [injectValue_phases env tid v e hl hg] at hr
+    split at hr
+    · cases hr
+    · cases hs : env.eval e with
+      | ok => simp [hs, evalExpr] at hr; exact (noEval_injectSecond env tid v s t hr).elim
+      | error => simp [hs, evalExpr] at hr
+      | visits r =>
+        simp only [hs, evalExpr, hl, ne_eq, not_true_eq_false, ↓reduceIte] at hr
+        cases r
+        · simp at hr
+        · simp at hr; exact (noEval_injectSecond env tid v s t hr).elim
+      | diverges => simp only [hs, evalExpr] at hr; cases hr; rfl
+
+theorem evalSame_runInject (env : Env) (args : List Str) : EvalSame (runInject repaired env args) := by
+  unfold runInject
+  split
+  · exact evalSame_of_noEval (noEval_pure _)
+  · refine evalSame_bind_pure (statePure_idx _ _ _) (noEval_idx _ _ _) fun a0 => ?_
+    split
+    · exact evalSame_of_noEval (noEval_pure _)
+    · refine evalSame_bind_pure (statePure_idx _ _ _) (noEval_idx _ _ _) fun a1 => ?_
+      refine evalSame_bind_pure (statePure_sliceFrom _ _ _) (noEval_sliceFrom _ _ _) fun rest => ?_
+      exact evalSame_bind_noEval (evalSame_injectValue env _ _ _) fun _ => noEval_pure _
+
+theorem evalSame_run (env : Env) (c : Cmd) (args : List Str) : EvalSame (c.run repaired env args) := by
+  cases c <;> simp only [Cmd.run]
+  · exact evalSame_of_noEval (noEval_runSetBreak _ _)
+  · exact evalSame_of_noEval (noEval_runBreakOnStart _)
+  · exact evalSame_of_noEval (noEval_runCont _ _)
+  · exact evalSame_of_noEval (noEval_runDescribe _ _)
+  · exact evalSame_of_noEval (noEval_runSetBreak _ _)
+  · exact evalSame_of_noEval (noEval_runExtract _)
+  · exact evalSame_runInject env _
+  · exact evalSame_of_noEval (noEval_lockState _)
+  · exact evalSame_of_noEval (noEval_runRmBreak _)
+  · exact evalSame_of_noEval (noEval_statusOf _)
+
+theorem evalSame_handleInput (env : Env) (line : Str) : EvalSame (handleInput repaired env line) := by
+  unfold handleInput
+  dsimp only
+  split
+  · refine evalSame_bind_pure (statePure_idx _ _ _) (noEval_idx _ _ _) fun a0 => ?_
+    split
+    · split
+      · exact evalSame_bind_pure (statePure_sliceFrom _ _ _) (noEval_sliceFrom _ _ _) fun _ => evalSame_run env _ _
+      · exact evalSame_run env _ _
+    · exact evalSame_of_noEval (noEval_pure _)
+  · exact evalSame_of_noEval (noEval_pure _)
+
+/-- **A pending `inject` has changed nothing.** If a command has not returned (reply
+    `evaluating`), the state every other client sees is exactly the state the command was issued
+    in: the first lock section of InjectValue only looked, the evaluation runs as a thread of its
+    own that the debugger does not record. -/
+theorem pending_inject_changed_nothing (env : Env) (s : DbgState) (line : Str) (h : s.lock = 0)
+    (hp : (handle env s line).2 = .evaluating) : (handle env s line).1 = s := by
+  unfold handle handleG at hp ⊢
+  cases hr : handleInput repaired env line s with
+  | evaluating t => simp only [hr]; exact evalSame_handleInput env line s t h hr
+  | ok o t =>
+    rw [hr] at hp
+    simp only [Out.reply] at hp
+    split at hp
+    · cases hp
+    · split at hp <;> cases hp
+  | panic p t => rw [hr] at hp; cases hp
+  | deadlock t => rw [hr] at hp; cases hp
+
+/-- non-vacuity: the pending `inject` of the earlier example left the state as it was -/
+example : (handle divergingEnv suspendedAtTop injectLine).1 = suspendedAtTop :=
+  pending_inject_changed_nothing divergingEnv suspendedAtTop injectLine rfl (by decide)
+
 /-- **A pending `inject` blocks nobody.** If `inject` has not returned (reply `evaluating`), the
     state every other client sees satisfies the invariant with the lock free; hence every further
     command line of any client gets a result or an error (or is itself an `inject` that evaluates),
